@@ -135,7 +135,7 @@ func spareClass(s string) string {
 }
 
 func TestVX_C10_GCM(t *testing.T) {
-	r := vx.Begin("C10", gcmPart("buffers-gcm"), "Seal and Open with every destination shape: len(dst) in {0,1,5,16,17} x spare capacity in {0,1,need-1,need,need+1,need+64}, nil, non-nil empty, and the in-place idiom dst=input[:0] - x message lengths {0,1,15,16,17,64,255,256,257,1100} x aad {0,17} x tag {12,16} x nonce {12,16}; each call repeated on the same buffers. Oracle: result == dst||gcmref output, first len(dst) bytes unchanged, nonce/aad/input unchanged (except the exactly overlapping destination), second call == first call")
+	r := vx.Begin("C10", gcmPart("buffers-gcm"), "Seal and Open with every destination shape: len(dst) in {0..9,11,15,16,17,31,39} x spare capacity in {0,1,need-1,need,need+1,need+64}, nil, non-nil empty, and the in-place idiom dst=input[:0] - x message lengths {0,1,15,16,17,64,255,256,257,1100} x aad {0,17} x tag {12,16} x nonce {12,16}; each call repeated on the same buffers. Oracle: result == dst||gcmref output, first len(dst) bytes unchanged, nonce/aad/input unchanged (except the exactly overlapping destination), second call == first call")
 	defer r.End()
 	selfCheck()
 	if raw, ok := vx.Replay(gcmPart("buffers-gcm")); ok {
@@ -153,7 +153,7 @@ func TestVX_C10_GCM(t *testing.T) {
 						if nl == 16 && !(pl == 17 || pl == 256) {
 							continue
 						}
-						for _, dl := range []int{0, 1, 5, 16, 17} {
+						for _, dl := range []int{0, 1, 2, 3, 4, 5, 6, 7, 8, 9, 11, 15, 16, 17, 31, 39} {
 							for _, sp := range []string{"nil", "empty", "0", "1", "need-1", "need", "need+1", "need+64", "inplace"} {
 								if (sp == "nil" || sp == "empty" || sp == "inplace") && dl != 0 {
 									continue
